@@ -210,6 +210,14 @@ def _do(c, op, ctx):
         return fp(c.pull(**_kw(op, ('prefix', 'side', 'expire_time', 'tag', 'retry'))))
     if name == 'peek':
         return fp(c.peek(**_kw(op, ('prefix', 'side', 'expire_time', 'tag', 'retry'))))
+    if name == 'open_settings':
+        # another handle on the same directory, opened without arguments: what it finds are the stored settings
+        from . import seams
+        new = seams.dc.Cache(c.directory, timeout=c.timeout)
+        try:
+            return fp(sorted((k, getattr(new, k)) for k in seams.dc.DEFAULT_SETTINGS))
+        finally:
+            new.close()
     if name == 'close':
         # closes the calling thread's connection(s); the object stays usable (the tutorial and Django call it routinely)
         (c.cache if hasattr(c, 'cache') and not hasattr(c, 'close') else c).close()
